@@ -24,6 +24,8 @@ type party struct {
 	_      [56]byte
 	goid   atomic.Int64
 	exited atomic.Bool
+	// set by the goroutine while it waits, in harness code, for its peer (barrier, flow control)
+	waiting atomic.Bool
 	// set by the goroutine itself when it recovered a panic
 	panicVal   interface{}
 	panicStack string
@@ -80,26 +82,37 @@ type watchOutcome struct {
 	sites  string
 }
 
-// watch waits for done. If no party makes progress for stallFirst, it inspects the goroutine dump:
-// when every party that has not exited is parked (blocked on a channel / lock) inside a util.Queue
-// method in two inspections confirmDelay apart with no progress in between, nobody is left who could
-// wake them (only the parties touch the queue): that is a deadlock, a logical criterion that does not
-// depend on machine load. If some party is merely not being scheduled the verdict after giveUp is
-// "stalled" (inconclusive).
+const (
+	stallFirst   = 3 * time.Second
+	confirmDelay = 2 * time.Second
+	// a party that keeps completing operations on the same queue releases its lock and mailbox
+	// this many times; a peer still *parked* (not merely runnable) after that was never woken
+	peerOpsForStarvation = 5000
+)
+
+// watch waits for done and looks for a queue operation that can never return. The criterion is
+// logical, not a timeout: a party P has completed no operation for >= stallFirst and is *parked*
+// (goroutine state chan receive / Mutex.Lock / ..., i.e. waiting for a wake-up, not for a CPU) inside a
+// util.Queue method, and every other live party either is in the same situation, or waits in harness
+// code for its peer (barrier / flow control), or has meanwhile completed thousands of operations on the
+// queue (each of which would have woken P). Confirmed by a second inspection confirmDelay later with
+// P's operation count unchanged. Only the parties touch the queue, so nobody is left to wake P.
+// If nothing moves but the pattern does not hold (somebody is runnable: starved by machine load), the
+// outcome after giveUp is "stalled" (inconclusive).
 func watch(parties []*party, done <-chan struct{}, giveUp time.Duration) watchOutcome {
-	const stallFirst = 3 * time.Second
-	const confirmDelay = 2 * time.Second
 	tick := time.NewTicker(200 * time.Millisecond)
 	defer tick.Stop()
-	sum := func() int64 {
-		var s int64
-		for _, p := range parties {
-			s += p.prog.Load()
-		}
-		return s
+	n := len(parties)
+	last := make([]int64, n)
+	lastChange := make([]time.Time, n)
+	now := time.Now()
+	// snap[j][i]: party i's operation count when party j last completed an operation
+	snap := make([][]int64, n)
+	for i, p := range parties {
+		last[i] = p.prog.Load()
+		lastChange[i] = now
+		snap[i] = make([]int64, n)
 	}
-	last := sum()
-	lastChange := time.Now()
 	var firstSig string
 	var firstAt time.Time
 	for {
@@ -108,43 +121,103 @@ func watch(parties []*party, done <-chan struct{}, giveUp time.Duration) watchOu
 			return watchOutcome{}
 		case <-tick.C:
 		}
-		if s := sum(); s != last {
-			last = s
-			lastChange = time.Now()
+		now = time.Now()
+		anyIdle := false
+		allIdle := true
+		minIdle := time.Duration(1 << 62)
+		for i, p := range parties {
+			if v := p.prog.Load(); v != last[i] {
+				last[i] = v
+				lastChange[i] = now
+				for k, o := range parties {
+					snap[i][k] = o.prog.Load()
+				}
+			}
+			if p.exited.Load() {
+				continue
+			}
+			idle := now.Sub(lastChange[i])
+			if idle >= stallFirst {
+				anyIdle = true
+			} else {
+				allIdle = false
+			}
+			if idle < minIdle {
+				minIdle = idle
+			}
+		}
+		if !anyIdle {
 			firstSig = ""
 			continue
 		}
-		idle := time.Since(lastChange)
-		if idle < stallFirst {
+		if firstSig != "" && now.Sub(firstAt) < confirmDelay {
 			continue
 		}
-		if firstSig != "" && time.Since(firstAt) < confirmDelay {
-			continue
-		}
-		sig, sites, stacks, allParked := inspect(parties)
-		if allParked {
-			if firstSig == "" {
-				firstSig, firstAt = sig, time.Now()
+		st := inspect(parties)
+		// the pattern
+		stuck := 0
+		ok := true
+		var sigParts []string
+		for i, p := range parties {
+			if p.exited.Load() {
 				continue
 			}
-			if sig == firstSig {
-				return watchOutcome{kind: "deadlock", sites: sites,
-					detail: fmt.Sprintf("no queue operation made progress for %.1fs and every goroutine that uses the queue is parked inside it (nobody left to wake them):\n%s",
-						idle.Seconds(), stacks)}
+			idle := now.Sub(lastChange[i])
+			switch {
+			case idle >= stallFirst && st[i].parkedInQueue:
+				stuck++
+				sigParts = append(sigParts, fmt.Sprintf("%s@%s#%d", p.name, st[i].site, last[i]))
+			case idle >= stallFirst && p.waiting.Load():
+				sigParts = append(sigParts, p.name+"@waits-for-peer")
+			case idle < stallFirst:
+				// progressing: must have had ample opportunity to wake the stuck ones
+				sigParts = append(sigParts, p.name+"@progressing")
+				for j := range parties {
+					if j != i && now.Sub(lastChange[j]) >= stallFirst && last[i]-snap[j][i] < peerOpsForStarvation {
+						ok = false
+					}
+				}
+			default:
+				ok = false
 			}
-			firstSig, firstAt = sig, time.Now()
-			continue
+		}
+		var stacks, siteList []string
+		seen := map[string]bool{}
+		for i, p := range parties {
+			if st[i].stack != "" {
+				stacks = append(stacks, p.name+": "+st[i].stack)
+			}
+			if st[i].parkedInQueue && !seen[st[i].site] {
+				seen[st[i].site] = true
+				siteList = append(siteList, st[i].site)
+			}
+		}
+		sort.Strings(siteList)
+		if ok && stuck > 0 {
+			sig := strings.Join(sigParts, ";")
+			if firstSig == "" || sig != firstSig {
+				firstSig, firstAt = sig, now
+				continue
+			}
+			return watchOutcome{kind: "deadlock", sites: strings.Join(siteList, ","),
+				detail: fmt.Sprintf("a queue operation can never return: %s (parked = waiting for a wake-up inside util.Queue with no completed operation for >= %.0fs; nobody is left to wake it):\n%s",
+					sig, (stallFirst + confirmDelay).Seconds(), strings.Join(stacks, "\n\n"))}
 		}
 		firstSig = ""
-		if idle > giveUp {
-			return watchOutcome{kind: "stalled", detail: fmt.Sprintf("no progress for %.0fs but some party is runnable (starved?):\n%s", idle.Seconds(), stacks)}
+		if allIdle && minIdle > giveUp {
+			return watchOutcome{kind: "stalled", detail: fmt.Sprintf("no progress for %.0fs but the deadlock pattern does not hold (a party is runnable: starved?):\n%s", minIdle.Seconds(), strings.Join(stacks, "\n\n"))}
 		}
 	}
 }
 
-// inspect returns a signature of the parties' blocked positions and whether all live parties are
-// parked inside the queue.
-func inspect(parties []*party) (sig, sites, stacks string, allParked bool) {
+type partyState struct {
+	parkedInQueue bool
+	site          string
+	stack         string
+}
+
+// inspect looks the parties up in a goroutine dump.
+func inspect(parties []*party) []partyState {
 	dump := mon.GoroutineDump()
 	blocks := map[int64]string{}
 	for _, g := range strings.Split(dump, "\n\n") {
@@ -159,28 +232,23 @@ func inspect(parties []*party) (sig, sites, stacks string, allParked bool) {
 			blocks[id] = g
 		}
 	}
-	live := 0
-	allParked = true
-	var sg, st []string
-	siteSet := map[string]bool{}
-	for _, p := range parties {
+	out := make([]partyState, len(parties))
+	for i, p := range parties {
 		if p.exited.Load() {
 			continue
 		}
-		live++
 		g, ok := blocks[p.goid.Load()]
 		if !ok {
-			allParked = false
 			continue
 		}
-		st = append(st, p.name+": "+g)
+		out[i].stack = g
 		head := g
-		if i := strings.IndexByte(g, '\n'); i > 0 {
-			head = g[:i]
+		if k := strings.IndexByte(g, '\n'); k > 0 {
+			head = g[:k]
 		}
 		state := ""
-		if i := strings.IndexByte(head, '['); i >= 0 {
-			state = strings.TrimSuffix(strings.TrimSuffix(head[i+1:], ":"), "]")
+		if k := strings.IndexByte(head, '['); k >= 0 {
+			state = strings.TrimSuffix(strings.TrimSuffix(head[k+1:], ":"), "]")
 		}
 		parked := false
 		for _, ps := range parkedStates {
@@ -188,21 +256,8 @@ func inspect(parties []*party) (sig, sites, stacks string, allParked bool) {
 				parked = true
 			}
 		}
-		inQueue := strings.Contains(g, "scrapligo/util.(*Queue)")
-		if !parked || !inQueue {
-			allParked = false
-		}
-		site := firstLibFrame(g)
-		siteSet[site] = true
-		sg = append(sg, fmt.Sprintf("%s@%s/%v", p.name, site, parked))
+		out[i].site = firstLibFrame(g)
+		out[i].parkedInQueue = parked && strings.Contains(g, "scrapligo/util.(*Queue)")
 	}
-	if live == 0 {
-		allParked = false
-	}
-	var sl []string
-	for s := range siteSet {
-		sl = append(sl, s)
-	}
-	sort.Strings(sl)
-	return strings.Join(sg, ";"), strings.Join(sl, ","), strings.Join(st, "\n\n"), allParked
+	return out
 }
